@@ -72,11 +72,86 @@ fn g_fit(src: &mut Src, obs: &mut Obs) -> CaseResult {
         let want_m = (n_target as i64 - off).max(1) as usize;
         tune(kind, &mut model, want_m);
     }
-    let exp = expected(&model);
-    let resp = build(kind, &model).map_err(|e| Fail::new("C17:harness:build", e, json!({"model": refcbor::diag(&exp)})))?;
+    check_fit(kind, &model, off, prior_kind, false, src, obs)
+}
+
+/// leaf lengths tried, largest first, when a member is pushed to the most its type can hold
+const LEAF_CAPS: &[usize] = &[3008, 1024, 676, 256, 255, 128, 77, 64, 48, 32, 16];
+
+/// The largest responses the types can express: every optional member present (each with
+/// probability 15/16; the enumerated cases set all of them) and every byte/text member grown to
+/// the longest length the public API accepts for it (found by trial through the harness's
+/// builder, so no capacity table is needed), deprecated members included. One member in eight is
+/// left as generated so that near-maximal combinations occur as well.
+fn g_max(src: &mut Src, obs: &mut Obs) -> CaseResult {
+    let kind = KINDS[src.below(KINDS.len())];
+    let off = src.below(5) as i64 - 2;
+    let prior_kind = src.below(3);
+    let retune = src.bool();
+    let mut words: Vec<u32> = (0..40).map(|_| if src.chance(15, 16) { crate::run::bit(true) } else { 0 }).collect();
+    for _ in 0..400 {
+        words.push(src.word());
+    }
+    let mut inner = Src::new(&words);
+    let mut info = RInfo::default();
+    let mut model = gen_response(kind, &mut inner, &mut info);
+    let mut grown = 0usize;
+    let mut leaves = 0usize;
+    let mut skipped = 0usize;
+    for p in mutate::walk(&model) {
+        let (is_text, cur) = match mutate::get(&model, &p) {
+            Some(Value::Bytes(b)) => (false, b.len()),
+            Some(Value::Text(t)) => (true, t.len()),
+            _ => continue,
+        };
+        leaves += 1;
+        if src.chance(1, 8) {
+            skipped += 1;
+            continue;
+        }
+        let original = mutate::get(&model, &p).cloned().unwrap();
+        let mut done = false;
+        for cap in LEAF_CAPS {
+            if *cap <= cur {
+                break;
+            }
+            let filler = if is_text { Value::Text(vec![b'm'; *cap]) } else { Value::Bytes(vec![0x5A; *cap]) };
+            if let Some(node) = mutate::get_mut(&mut model, &p) {
+                *node = filler;
+            }
+            if build(kind, &model).is_ok() {
+                done = true;
+                grown += 1;
+                break;
+            }
+        }
+        if !done {
+            if let Some(node) = mutate::get_mut(&mut model, &p) {
+                *node = original;
+            }
+        }
+    }
+    obs.labelf(format!("max:{}", kind.name()));
+    let _ = grown;
+    if leaves > 0 && skipped == 0 {
+        obs.labelf(format!("max:all-members-at-capacity:{}", kind.name()));
+    }
+    if retune && kind.has_params() {
+        // bring the message to an instantiated capacity just below its maximal size
+        let m = 1 + refcbor::encode_canonical(&expected(&model)).len();
+        if let Some(n) = CAPS.iter().rev().find(|c| (**c as i64) < m as i64 - 2) {
+            tune(kind, &mut model, (*n as i64 - off).max(1) as usize);
+        }
+    }
+    check_fit(kind, &model, off, prior_kind, true, src, obs)
+}
+
+fn check_fit(kind: Kind, model: &Value, off: i64, prior_kind: usize, all_transport: bool, src: &mut Src, obs: &mut Obs) -> CaseResult {
+    let exp = expected(model);
+    let resp = build(kind, model).map_err(|e| Fail::new("C17:harness:build", e, json!({"model": refcbor::diag(&exp)})))?;
     let full = serialize_full(&resp);
     // the complete message must be right to begin with (C02's oracle), otherwise nothing can be said
-    check_encoding(kind, &model, &full).map_err(|m| Fail::new(sig_of("C17:precondition", kind.name(), &m), format!("complete message wrong: {}", m), json!({"model": refcbor::diag(&exp)})))?;
+    check_encoding(kind, model, &full).map_err(|m| Fail::new(sig_of("C17:precondition", kind.name(), &m), format!("complete message wrong: {}", m), json!({"model": refcbor::diag(&exp)})))?;
     let m = full.len();
     // capacity: the one aimed at if it ended up in the window, else the nearest listed capacity to M + off
     let aim = (m as i64 + off).max(1) as usize;
@@ -88,7 +163,7 @@ fn g_fit(src: &mut Src, obs: &mut Obs) -> CaseResult {
     let mut caps_to_try = vec![n, 1, 2, 3];
     if m > 1 {
         for extra in [64usize, 256, 1024, 3072, 7609] {
-            if src.chance(1, 8) {
+            if all_transport || src.chance(1, 8) {
                 caps_to_try.push(extra);
             }
         }
@@ -122,7 +197,7 @@ fn g_fit(src: &mut Src, obs: &mut Obs) -> CaseResult {
             obs.nontrivial(&[kind.name().as_bytes(), &full, &(cap as u32).to_le_bytes()]);
         }
         let case = || {
-            json!({"kind": kind.name(), "capacity": cap, "message_len": m, "prior_len": prior.len(), "model_hex": hex(&refcbor::encode_canonical(&model)),
+            json!({"kind": kind.name(), "capacity": cap, "message_len": m, "prior_len": prior.len(), "model_hex": hex(&refcbor::encode_canonical(model)),
                    "expected": if fits { "complete message" } else { "[0x7f]" }})
         };
         obs.case_with(case);
@@ -147,7 +222,7 @@ fn g_fit(src: &mut Src, obs: &mut Obs) -> CaseResult {
             let mut payload = vec![KINDS.iter().position(|x| *x == kind).unwrap() as u8];
             payload.extend_from_slice(&(cap as u32).to_be_bytes());
             payload.push(prior.len().min(255) as u8);
-            payload.extend_from_slice(&refcbor::encode_canonical(&model));
+            payload.extend_from_slice(&refcbor::encode_canonical(model));
             return Err(Fail::new(
                 format!("C17:{}:{}:{}", what, if empty_map_at_1 { "capacity1-empty-map".to_string() } else { format!("N-M={}", d.clamp(-3, 3)) }, pname),
                 format!("{} response of {} bytes into capacity {} ({}): got {} bytes starting {}, expected {}", kind.name(), m, cap, pname, got.len(), hex(&got[..got.len().min(8)]), if fits { "the complete message" } else { "[0x7f]" }),
@@ -190,12 +265,13 @@ fn g_concrete(src: &mut Src, obs: &mut Obs) -> CaseResult {
 
 pub const G_FIT: Gen = Gen { name: "c17_fit", f: g_fit };
 pub const G_CONCRETE: Gen = Gen { name: "c17_concrete", f: g_concrete };
+pub const G_MAX: Gen = Gen { name: "c17_max", f: g_max };
 
 pub fn gens() -> Vec<Gen> {
-    vec![G_FIT, G_CONCRETE]
+    vec![G_FIT, G_CONCRETE, G_MAX]
 }
 
-pub const RULE: &str = "Response::serialize::<N> is instantiated for every N in 1..=520, 670..=700, 1020..=1030, 3005..=3020 and 64, 256, 512, 1024, 2048, 3072, 4096, 7609 (N is a const generic). For a generated response of any kind (C02 generator; every presence prefix enumerated) a capacity is drawn and a variable-length member (authData, credential id, signature, pin token, rp id, config ...) is resized so that the complete message size M satisfies N - M in {-2,-1,0,1,2}; where a kind cannot reach the drawn capacity the nearest instantiated capacity to M+offset is used. Every response is additionally serialised at N = 1, 2, 3 and occasionally at the transport sizes 64/256/1024/3072/7609. Prior buffer state rotates over empty / partially filled / completely filled with a sentinel. Oracle: expected = the complete message (the crate's own output into a 7609-byte buffer, accepted only after it passed C02's comparison with the reference model) if M <= N, else exactly [0x7F]; buffer after the call == expected for every prior state; no panic. Non-trivial: |N - M| <= 2 or a non-empty prior state; distinct by (kind, message, capacity); evaluations count (response, capacity, prior state) triples.";
+pub const RULE: &str = "Response::serialize::<N> is instantiated for every N in 1..=520, 670..=700, 1020..=1030, 3005..=3020 and 64, 256, 512, 1024, 2048, 3072, 4096, 7609 (N is a const generic). For a generated response of any kind (C02 generator; every presence prefix enumerated) a capacity is drawn and a variable-length member (authData, credential id, signature, pin token, rp id, config ...) is resized so that the complete message size M satisfies N - M in {-2,-1,0,1,2}; where a kind cannot reach the drawn capacity the nearest instantiated capacity to M+offset is used. Every response is additionally serialised at N = 1, 2, 3 and occasionally at the transport sizes 64/256/1024/3072/7609. A second generator builds the largest responses the types can express (every optional member present, deprecated ones included, and every byte/text member grown to the longest length the public API accepts, found by trial; one member in eight left as generated) and serialises them at every transport size and, retuned, at the frontier of the nearest instantiated capacity. Prior buffer state rotates over empty / partially filled / completely filled with a sentinel. Oracle: expected = the complete message (the crate's own output into a 7609-byte buffer, accepted only after it passed C02's comparison with the reference model) if M <= N, else exactly [0x7F]; buffer after the call == expected for every prior state; no panic. Non-trivial: |N - M| <= 2 or a non-empty prior state; distinct by (kind, message, capacity); evaluations count (response, capacity, prior state) triples.";
 pub const ASSUMPTIONS: &[&str] = &[
     "member encoding and key order are judged by C02 / C03; this check decides the framing only",
     "no response type of this crate exceeds about 3.1 KiB, so capacities 4096 and 7609 only ever see fitting messages",
@@ -226,11 +302,25 @@ pub fn run(ctx: &mut Ctx) {
             }
         }
         ctx.random(&G_FIT, &[idx(ki, KINDS.len())], ctx.t(400, 20_000), 700);
+        // the largest expressible responses: everything present and at capacity (first case), then
+        // near-maximal random combinations
+        let mut all_max: Vec<Vec<u32>> = vec![];
+        for o in 0..5 {
+            for pk in 0..3 {
+                let mut w = vec![idx(ki, KINDS.len()), idx(o, 5), idx(pk, 3), crate::run::bit(o % 2 == 1)];
+                w.extend(std::iter::repeat(u32::MAX).take(40)); // chance(15,16): present
+                // the remaining words are 0: chance(1,8) false, i.e. every leaf is grown
+                all_max.push(w);
+            }
+        }
+        ctx.enumerate(&G_MAX, all_max.into_iter());
+        ctx.random(&G_MAX, &[idx(ki, KINDS.len())], ctx.t(60, 3000), 700);
     }
     ctx.exhaustive.push(format!("every response kind x every presence prefix; every instantiated capacity ({}) x offset per parameter-bearing kind", CAPS.len()));
     ctx.require(&[
         "kind:GetInfo", "kind:MakeCredential", "kind:GetAssertion", "kind:ClientPin", "kind:CredentialManagement", "kind:LargeBlobs", "kind:Reset",
         "frontier:N-M=0", "frontier:N-M=-1", "frontier:N-M=1", "frontier:N-M=-2", "frontier:N-M=2", "far:fits", "far:overflow",
         "prior:empty", "prior:partial", "prior:full", "body:0", "body:256..1023", "capacity1-empty-map",
+        "max:all-members-at-capacity:GetAssertion", "max:all-members-at-capacity:MakeCredential", "max:all-members-at-capacity:CredentialManagement", "max:all-members-at-capacity:GetInfo",
     ]);
 }
